@@ -8,11 +8,10 @@
          C10_apply_changes_roundtrip, C10_generic_roundtrip                    (proved, all trees)
    (2) "the optimised comparisons report the same set of changes as the generic comparison"
          C10_generic_matches_spec, C10_chk_matches_spec,
-         C10_optimised_equals_generic                                         (proved, no filter,
-                                                                               include_unchanged = False)
-         C10_chk_include_unchanged_refuted                                    (FALSE with include_unchanged)
-         C10_no_duplicates_refuted                                            (with a filter the generic and
-                                                                               CHK paths report an id twice)
+         C10_chk_include_unchanged_matches_spec, C10_optimised_equals_generic  (proved, no filter, both
+                                                                               include_unchanged settings)
+         C10_no_duplicates                                                    (proved: no id is reported twice
+                                                                               by the generic walker, filtered or not)
        The dirstate fast path's comparison core is compiled code outside /repo: no theorem;
        it is compared with the generic walker and with the model on every run (harness).
    (3) "when a path filter is given the reported changes include every parent needed so that
@@ -55,26 +54,37 @@ Theorem C10_chk_matches_spec :
 Proof. exact chk_unfiltered_spec. Qed.
 Print Assumptions C10_chk_matches_spec.
 
+Theorem C10_chk_include_unchanged_matches_spec :
+  forall a b, valid_tree a -> valid_tree b ->
+    exists l, chk a b None true = Some l /\ forall c, In c l <-> In c (changes_gen true a b).
+Proof. exact chk_unfiltered_incl_spec. Qed.
+Print Assumptions C10_chk_include_unchanged_matches_spec.
+
+(* no filter, either setting of include_unchanged: the CHK fast path and the generic walker
+   report the same set (true for include_unchanged since fix b515e80) *)
 Theorem C10_optimised_equals_generic :
-  forall a b, exists lg lc, generic a b None false = Some lg /\ chk a b None false = Some lc /\
-                            forall c, In c lg <-> In c lc.
-Proof. exact optimised_equals_generic_unfiltered. Qed.
+  forall a b incl, valid_tree a -> valid_tree b ->
+    exists lg lc, generic a b None incl = Some lg /\ chk a b None incl = Some lc /\
+                  forall c, In c lg <-> In c lc.
+Proof. exact optimised_equals_generic_unfiltered_incl. Qed.
 Print Assumptions C10_optimised_equals_generic.
 
-Theorem C10_chk_include_unchanged_refuted :
-  valid_tree w3a /\ valid_tree w3b /\
-  exists lg lc, generic w3a w3b None true = Some lg /\ chk w3a w3b None true = Some lc /\
-    In (mk_change w3a w3b 2%nat) lg /\ ~ In (mk_change w3a w3b 2%nat) lc /\
-    exists c, In c lc /\ c_id c = 2%nat /\ c_path c = (Some [[101%N]; [120%N]], Some [[101%N]; [120%N]]).
-Proof. exact chk_include_unchanged_refuted. Qed.
-Print Assumptions C10_chk_include_unchanged_refuted.
+Example C10_w3_chk_unchanged_paths :   (* the witness of the repaired defect *)
+  exists lc c, chk w3a w3b None true = Some lc /\ In c lc /\ c = mk_change w3a w3b 2%nat /\
+               c_path c = (Some [[100%N]; [120%N]], Some [[101%N]; [120%N]]).
+Proof. exact w3_chk_unchanged_paths. Qed.
 
-Theorem C10_no_duplicates_refuted :
-  valid_tree w2a /\ valid_tree w2b /\
-  exists l, generic w2a w2b (Some [[[101%N]]]) false = Some l /\ ids_of l = [1; 2; 3; 1]%nat /\
-  exists l', chk w2a w2b (Some [[[101%N]]]) false = Some l' /\ ids_of l' = [1; 2; 3; 1]%nat.
-Proof. exact generic_duplicates_refuted. Qed.
-Print Assumptions C10_no_duplicates_refuted.
+(* no id is reported twice, with or without a filter (true since fix 5cddeb1) *)
+Theorem C10_no_duplicates :
+  forall a b F incl l ex, sorted a -> sorted b ->
+    generic_full a b F incl = Some (l, ex) -> NoDup (ids_of l).
+Proof. exact generic_no_duplicates. Qed.
+Print Assumptions C10_no_duplicates.
+
+Example C10_w2_no_duplicates :         (* the witness of the repaired defect, generic and CHK *)
+  exists l l', generic w2a w2b (Some [[[101%N]]]) false = Some l /\ ids_of l = [1; 2; 3]%nat /\
+               chk w2a w2b (Some [[[101%N]]]) false = Some l' /\ ids_of l' = [1; 2; 3]%nat.
+Proof. exact w2_no_duplicates. Qed.
 
 (* (3) *)
 Theorem C10_filtered_complete :
@@ -102,7 +112,7 @@ Proof. exact filtered_closed_partial. Qed.
 Print Assumptions C10_filtered_closed_partial.
 
 Example C10_closure_nonvacuous :
-  exists l ex, generic_full w2a w2b (Some [[[101%N]]]) false = Some (l, ex) /\ ex = [3; 0; 1; 0]%nat.
+  exists l ex, generic_full w2a w2b (Some [[[101%N]]]) false = Some (l, ex) /\ ex <> [].
 Proof. exact closure_nonvacuous. Qed.
 
 (* the applied filtered delta is NOT always a valid tree: two ids end up with the same
